@@ -155,6 +155,7 @@ class C04World:
         self.perturbations = 0
         self.foreign = None
         self.ev_index = -1
+        self._swap_how = "copy"
 
     # ---------------------------------------------------------------- oracles A, B, C
 
@@ -246,6 +247,7 @@ class C04World:
         if op in ("drop_abs", "drop_rel"):
             return self._drop(slot, op, pre)
         if op == "copy_swap":
+            self._swap_how = ev.get("how", "copy")
             return self._copy_swap(slot, pre)
         kind = OPS[op][0]
         if kind == READ:
@@ -264,7 +266,7 @@ class C04World:
         T = clone_seq(S)  # clean twin: only the fresh views, deep-copied, no stale leftovers
         P = clone_seq(S)  # pre-state, for the cross-freshness-state variants (oracle D2)
         rs, es = _call(applier, S, args)
-        rt, et = _call(applier, T, args)
+        rt, et = _call(applier, T, _clean_args(args))
         key = {"op": op, "pre": pre}
         if es is not None or et is not None:
             if es is not None and et is not None and type(es) is type(et):
@@ -404,7 +406,15 @@ class C04World:
         S = slot.seq
         key = {"op": "copy_swap", "pre": pre}
         before = self.check_state(S, "copy_swap", pre)
-        c, e = _call(S.copy)
+        how = self._swap_how
+        if how == "deepcopy":
+            import copy as _copy
+            c, e = _call(_copy.deepcopy, S)
+        elif how == "pickle":
+            import pickle
+            c, e = _call(lambda: pickle.loads(pickle.dumps(S)))
+        else:
+            c, e = _call(S.copy)
         if e is not None:
             raise _V(Violation("UNREADABLE", f"copy() raised {type(e).__name__}: {e} from state {pre}", key))
         after = self.check_state(S, "copy_swap", pre, " (original after copy)")
@@ -603,6 +613,10 @@ class C04World:
             return out
         legal = op in seqops.ITER_SAFE_READS or (view == "rel" and op in ("equals", "get_message_pairings",
                                                                          "get_interleaved_message_pairings"))
+        if not legal and not it.started and op in OPS and OPS[op][0] in (MUT, VAL, DIRECT):
+            # the generator object exists but nothing has been handed out yet (no next()): any operation is still legal,
+            # and the iteration that follows must walk the sequence as it is THEN
+            return self._op_before_first_next(slot, op, ev, pre)
         if not legal:
             return "skip:L2"
         if op == "copy":
@@ -654,6 +668,38 @@ class C04World:
             self.stats["reach_iter/read_unjudged_in_tainted_window"] += 1
         return out
 
+    def _op_before_first_next(self, slot, op, ev, pre):
+        it = slot.it
+        S = slot.seq
+        args = ev.get("args", {})
+        pre_fn = seqops.PRECOND.get(op)
+        if pre_fn is not None and not pre_fn(S, args):
+            return "skip:precondition"
+        applier = OPS[op][2]
+        key = {"op": op, "pre": pre}
+        parties = [("subject", S), ("twin", it.twin)] + [(f"variant {v[0]}", v[1]) for v in it.variants]
+        outs = [(name, ) + _call(applier, q, args) for name, q in parties]
+        excs = [o for o in outs if o[2] is not None]
+        if excs:
+            if len(excs) == len(outs) and len({type(o[2]) for o in outs}) == 1:
+                raise Foreign(f"{op}:{type(outs[0][2]).__name__}")
+            raise _V(Violation("STATE-DEPENDENT", f"{op} with an unstarted iterator open: raised for "
+                               f"{[o[0] for o in excs]} only ({excs[0][2]!r})", key))
+        self.stats[f"op/{op}"] += 1
+        self.stats["reach_iter/op_between_open_and_first_next"] += 1
+        if OPS[op][0] in (MUT, DIRECT):
+            self.mutations += 1
+        st = self.check_state(S, op, pre, " (iterator opened, not started)")
+        for name, q in parties[1:]:
+            try:
+                sq = canon_views(q)
+            except Unreadable as u:
+                raise _V(Violation("STATE-DEPENDENT", f"{op} with an unstarted iterator open: {name} unreadable: {u}", key))
+            if sq != st:
+                raise _V(Violation("STATE-DEPENDENT", f"{op} with an unstarted iterator open: {name} differs from the subject: "
+                                   f"{first_diff(list(st), list(sq))}"[:600], key))
+        return "ok"
+
     def finish(self):
         """Close every iterator still open (never leave it to the garbage collector)."""
         for si, slot in enumerate(self.slots):
@@ -662,6 +708,25 @@ class C04World:
                 if v is not None:
                     return v
         return None
+
+
+def _clean_args(args):
+    """Same arguments, but every sequence-valued one is handed over as a clean clone (fresh views only)."""
+    if not isinstance(args, dict):
+        return args
+    out = dict(args)
+    changed = False
+    if isinstance(args.get("args"), list):
+        out["args"] = [dict(x, _clean=True) if isinstance(x, dict) and "spec" in x else x for x in args["args"]]
+        changed = True
+    for k in ("other", "meta"):
+        if isinstance(args.get(k), dict) and "spec" in args[k]:
+            out[k] = dict(args[k], _clean=True)
+            changed = True
+    if isinstance(args.get("extra"), list):
+        out["extra"] = [dict(x, _clean=True) if isinstance(x, dict) and "spec" in x else x for x in args["extra"]]
+        changed = True
+    return out if changed else args
 
 
 class _V(Exception):
@@ -725,6 +790,9 @@ def _gen_event(rng, world, knobs):
     if slot.it is not None:
         it = slot.it
         r = rng.random()
+        if not it.started and r < 0.2:
+            op = seqops.weighted_choice(rng, seqops.MUTATORS, knobs.get("muts"))
+            return {"op": op, "slot": si, "args": OPS[op][1](rng, S)}
         if r < 0.34:
             return {"op": "iter_advance", "slot": si}
         if r < 0.60:
@@ -762,7 +830,7 @@ def _gen_event(rng, world, knobs):
         return {"op": rng.choice(["drop_abs", "drop_rel"]), "slot": si}
     acc += knobs["p_swap"]
     if r < acc:
-        return {"op": "copy_swap", "slot": si}
+        return {"op": "copy_swap", "slot": si, "how": rng.choice(["copy", "copy", "copy", "deepcopy", "pickle"])}
     acc += knobs["p_val"]
     if r < acc:
         op = seqops.weighted_choice(rng, seqops.VALUE_OPS, knobs["vals"])
